@@ -1,3 +1,3 @@
 SPECIFICATION Spec
-INVARIANT RuleEqualsRelation Laws Between SameVarNeverStrictlyEqualContainers ExportCases
+INVARIANT RuleEqualsRelation Laws Between StrictImpliesLoose SameVarNeverStrictlyEqualContainers ExportCases
 CHECK_DEADLOCK FALSE
